@@ -71,16 +71,24 @@ OutInd(o, e) ==
                      v == ~wasInside \/ g \in b.sent
                  IN IF ~v THEN o4 ELSE IF o.model THEN RFlag(o4, "C13.OnePerWaiter") ELSE [o4 EXCEPT !.note = Append(@, "drift.OnePerWaiter")]
             ELSE o4
-      nbq == IF Len(bq) > 0 /\ own /\ bq[1].w # -1 /\ t > bq[1].w + grace THEN [bq EXCEPT ![1].sent = @ \cup {g}] ELSE bq
+      \* C13: the goroutine that retransmits lost messages is ONE goroutine: once the busy indication has been taken in, it may
+      \* get one more transmission out (it was inside Send) and, on the real client, a second one (Go's mutex lets a running
+      \* goroutine barge until a waiter has starved for 1 ms, then hands the lock over) - a third retransmission later than
+      \* 1.5 ms after the busy indication was taken in, with the lock still not with the busy handler, means that the
+      \* retransmissions are not queueing behind it at all
+      lateRs == Len(bq) > 0 /\ bq[1].w # -1 /\ isResend /\ t > bq[1].w + 1500 + o.slk
+      o6 == RFlagIf(o5, lateRs /\ bq[1].rs + 1 >= 3, "C13.BusyResend")
+      nbq0 == IF Len(bq) > 0 /\ own /\ bq[1].w # -1 /\ t > bq[1].w + grace THEN [bq EXCEPT ![1].sent = @ \cup {g}] ELSE bq
+      nbq == IF lateRs THEN [nbq0 EXCEPT ![1].rs = @ + 1] ELSE nbq0
       rs == IF isResend THEN LET i == CHOOSE i \in 1..Len(o.resend) : o.resend[i] = pid /\ \A j \in 1..Len(o.resend) : o.resend[j] = pid => i <= j
                              IN RemoveAt(o.resend, i)
             ELSE o.resend
-  IN [o5 EXCEPT !.lastTx = t, !.retained = Trim(Append(@, pid), o.retain),
+  IN [o6 EXCEPT !.lastTx = t, !.retained = Trim(Append(@, pid), o.retain),
                 !.txd = IF own THEN @ \cup {pid} ELSE @, !.everTx = @ \cup {pid},
                 !.busyQ = nbq, !.resend = rs, !.multi = IF rs = << >> THEN FALSE ELSE @]
 
 InBusy(o, e) ==
-  [o EXCEPT !.busyQ = Append(@, [wait |-> e.a * 1000, ctrl |-> e.seq, t |-> e.t, w |-> -1, inside |-> {}, sent |-> {}])]
+  [o EXCEPT !.busyQ = Append(@, [wait |-> e.a * 1000, ctrl |-> e.seq, t |-> e.t, w |-> -1, inside |-> {}, sent |-> {}, rs |-> 0])]
 
 \* the serve goroutine is about to request the lock: from now on (plus a scheduling grace) only
 \* goroutines already inside Send are ahead of it in the queue
